@@ -75,14 +75,33 @@ theorem inv_step (f : List Nat → List β) (s : St β) (op : Op) (h : Inv s) : 
   | sample draws => intro hd; simp [step, addDf] at hd
   | newSampler => intro hd; exact ⟨rfl, (h hd).2⟩
   | switch => intro hd; exact ⟨(h hd).2, (h hd).1⟩
+  | look =>
+    intro hd
+    have hd' : s.disk = none := hd
+    have := h hd'
+    refine ⟨?_, this.2⟩
+    show (match s.mem with | some t => some t | none => s.disk) = none
+    rw [this.1, hd']
 
 /-- **disk = memory after every run** (and a fresh Sampler object has nothing in memory) -/
-theorem c15_disk_eq_mem (f : List Nat → List β) (s : St β) (op : Op) (hi : Inv s) (hop : op ≠ .switch) :
-    Synced (step f s op) := by
+theorem c15_disk_eq_mem (f : List Nat → List β) (s : St β) (op : Op) (hi : Inv s) (hop : op ≠ .switch)
+    (hop2 : op ≠ .look) : Synced (step f s op) := by
   cases op with
   | sample draws => right; exact (c15_file_appends f s draws hi).2
   | newSampler => left; rfl
   | switch => exact absurd rfl hop
+  | look => exact absurd rfl hop2
+
+/-- reading `full_df` keeps a synced sampler synced (and shows the file) -/
+theorem c15_look_synced (f : List Nat → List β) (s : St β) (h : Synced s) :
+    Synced (step f s .look) ∧ table (step f s .look) = fileTable s := by
+  have hs : Synced (step f s .look) := by
+    rcases h with h | h
+    · right; show (match s.mem with | some t => some t | none => s.disk) = s.disk; rw [h]
+    · cases hm : s.mem with
+      | none => right; show (match s.mem with | some t => some t | none => s.disk) = s.disk; rw [hm]
+      | some t => right; show (match s.mem with | some t => some t | none => s.disk) = s.disk; rw [hm]; rw [hm] at h; exact h
+  exact ⟨hs, by rw [table_of_synced _ hs]; rfl⟩
 
 /-- **whole histories**: from an empty store, after any sequence of runs, new Sampler objects and switches between two
 live objects, the file holds exactly the rows of all runs in order — nothing dropped, nothing altered, nothing added -/
@@ -104,6 +123,7 @@ theorem c15_history (f : List Nat → List β) (ops : List Op) :
       simp [allDraws, rowsOf, List.append_assoc]
     | newSampler => simp [allDraws, step, fileTable]
     | switch => simp [allDraws, step, fileTable]
+    | look => simp [allDraws, step, fileTable]
 
 /-- after a history that ends in a run, the running sampler shows exactly the file -/
 theorem c15_history_shown (f : List Nat → List β) (ops : List Op) (draws : List (List Nat)) (s : St β) (h : Inv s) :
